@@ -137,11 +137,36 @@ def impl_functions():
     fs['tune_prop'] = lambda strs, flag, opt, num=0: show_obj(ty.tune_prop(strs[0], raise_error_if_no_corners=flag))
     fs['tune_token'] = with_stub(lambda strs, flag, opt, num: show_obj(ty.tune_token(strs[0], allow_untyped_numbers=flag, raise_error_if_no_corners=(num != 0),
                                                                                      base_namespace=opt)))
+    tsv = importlib.import_module("shexer.io.graph.yielder.tsv_nt_triples_yielder")
+    fs['tsv_look_for_tokens'] = lambda strs, flag, opt, num=0: "".join(t + "\x01" for t in tsv.TsvNtTriplesYielder._look_for_tokens(None, strs[0]))
     tt = importlib.import_module("shexer.io.graph.yielder.big_ttl_triples_yielder")
     ty_ = tt.BigTtlTriplesYielder(raw_graph="")
     fs['ttl_remove_comments_if_needed'] = lambda strs, flag, opt, num=0: _bounded(ty_._remove_comments_if_needed, strs[0])
     for meth in ('_find_next_blank', '_count_prior_backslashes', '_find_next_unescaped_quotes', '_find_next_quoted_literal_ending'):
         fs['ttl' + meth] = (lambda m: lambda strs, flag, opt, num=0: str(_bounded(getattr(ty_, m), strs[0], num)))(meth)
+
+    def cornered(strs, flag, opt, num=0):
+        saved = tt.urljoin
+        tt.urljoin = _stub
+        ty_._base = opt
+        try:
+            return ty_._parse_cornered_element(strs[0])
+        finally:
+            tt.urljoin = saved
+            ty_._base = None
+    fs['ttl_parse_cornered_element'] = cornered
+
+    def next_tok(strs, flag, opt, num=0):
+        saved = tt.urljoin
+        tt.urljoin = _stub
+        ty_._base = opt
+        try:
+            tok, idx = _bounded(ty_._next_line_token, strs[0], num)
+            return None if tok is None else tok + "\x01" + str(idx)
+        finally:
+            tt.urljoin = saved
+            ty_._base = None
+    fs['ttl_next_line_token'] = next_tok
 
     def expand(strs, flag, opt, num=0):
         ty_._prefixes = dict(zip(strs[1::2], strs[2::2]))
@@ -176,7 +201,7 @@ NT_PIECES = ['<http://e/a>', '<http://e/b#x>', '<', '>', '"', '"', '\\"', '\\\\'
 
 
 TTL_FUNCS = ['ttl_remove_comments_if_needed', 'ttl_find_next_blank', 'ttl_count_prior_backslashes', 'ttl_find_next_unescaped_quotes',
-             'ttl_find_next_quoted_literal_ending', 'ttl_expand_prefixed_datatype_if_needed']
+             'ttl_find_next_quoted_literal_ending', 'ttl_expand_prefixed_datatype_if_needed', 'ttl_parse_cornered_element', 'ttl_next_line_token', 'ttl_next_line_token']
 TTL_PIECES = ['"', '"', '\\"', '\\\\', '\\', ' #', ' # c', '#', ' ', ' ', 'ex:a', 'ex:p', '<http://e/x>', '^^', '^^xsd:int', '^^<http://e/dt>', '^^ex:dt', '@en', '@en-GB',
               ' .', ' ;', ' ,', '.', 'a', 'é', '12', '_:b', ':', "'", '\u2028']
 
@@ -199,6 +224,15 @@ def gen_ttl(rng):
         return "F %s 0 N %s" % (name, " ".join(enc(x) for x in strs)), (name, strs, False, None, 0)
     if name == 'ttl_remove_comments_if_needed':
         return "G %s 0 %s" % (name, enc(line)), (name, [line], False, None, 0)
+    if name == 'ttl_parse_cornered_element':
+        tok = rng.choice(['<http://e/a>', '<rel>', '<#frag>', '</abs>', '<>', '<', 'x', '', '<urn:x:y>'])
+        opt = None if rng.random() < 0.4 else rng.choice(['http://base.example/dir/', 'http://b/x#', ''])
+        return "H %s 0 0 %s %s" % (name, 'N' if opt is None else enc(opt), enc(tok)), (name, [tok], False, opt, 0)
+    if name == 'ttl_next_line_token':
+        opt = None if rng.random() < 0.6 else rng.choice(['http://base.example/dir/', 'http://b/x#'])
+        starts = [i for i, c in enumerate(line) if i == 0 or line[i - 1] == ' ']
+        num = rng.choice(starts) if starts and rng.random() < 0.85 else rng.randint(-2, len(line) + 1)
+        return "H %s 0 %d %s %s" % (name, num, 'N' if opt is None else enc(opt), enc(line)), (name, [line], False, opt, num)
     want = {'ttl_find_next_blank': None, 'ttl_count_prior_backslashes': '"', 'ttl_find_next_unescaped_quotes': None, 'ttl_find_next_quoted_literal_ending': '"'}[name]
     good = [i for i, c in enumerate(line) if want is None or c in want]
     num = rng.choice(good) if good and rng.random() < 0.8 else rng.randint(-2, len(line) + 1)
@@ -208,7 +242,7 @@ def gen_ttl(rng):
     return "G %s %d %s" % (name, num, enc(line)), (name, [line], False, None, num)
 
 
-TUNE_FUNCS = ['parse_literal', 'parse_unquoted_literal', 'tune_subj', 'tune_prop', 'tune_token']
+TUNE_FUNCS = ['parse_literal', 'parse_unquoted_literal', 'tune_subj', 'tune_prop', 'tune_token', 'tsv_look_for_tokens']
 
 
 def gen_tune(rng):
@@ -226,6 +260,8 @@ def gen_tune(rng):
         tok = rng.choice(['', '+', '-']) + rng.choice(['0', '7', '12', '007', '', '3.0', '3.5', '.5', '5.', '1.2.3', '12a', '0.000', '-1', '1 ']) + rng.choice(['', '', ' ', '.0'])
     else:
         tok = rstr(rng, PIECES, 0, 4)
+    if name == 'tsv_look_for_tokens':
+        tok = "".join(rng.choice(['\t', '\t', '<http://e/a>', '"x y"', '_:b', ' ', '12', '\n', 'é']) for _ in range(rng.randint(0, 6)))
     flag = rng.random() < 0.5
     num = rng.randint(0, 1)
     opt = None if rng.random() < 0.6 else rng.choice(['http://base.example/', 'http://b/x#'])
